@@ -66,6 +66,8 @@ of `Model/Reactive.lean` (the model and its theorems are untouched):
 * `onclr <sig>` — the cleanup callbacks read a signal: a cleanup is not the body, nobody is subscribed: `ok`.
 * `setun <id> <v>` — `update_untracked` / `write_untracked` followed by an explicit `notify()`: the model's `set`.
 * `wrap 6` — `Signal<Option<T>>::from(Signal<T>)`: transparent like the other wrappers.
+* `memof <sig>` — `ArcMemo::from(signal)` = `ArcMemo::new(move |_| signal.get())`: the memo `R<sig>`.  The harness
+  cannot count the runs of a closure it did not write, so `memof` nodes are left out of `runs=` on both sides.
 * `oncl` — every effect run registers one `on_cleanup`; C02 lines then end in ` cl=<node>:<calls>,…` = for every effect,
   one call per run of this op that superseded an earlier run, plus one when it is disposed after having run.
 * `imeff <expr>` — `ImmediateEffect::new`: no task; the real effect runs inside the notification that reaches it.
@@ -109,6 +111,8 @@ structure DState where
   inScope : Bool := false
   nScopes : Nat := 0
   cleaned : List Nat := []
+  /-- `memof` nodes -/
+  froms : List Nat := []
   /-- run counts and liveness when the current op started (for `cl=`) -/
   runs0 : List Nat := []
   alive0 : List Bool := []
@@ -355,7 +359,7 @@ def afterOp (m : Mode) (d : DState) (read : Option (Nat × Int)) : String :=
       s!"{v} ## {verdict}"
     | none => "ok"
   | .c09 =>
-    let runs := countRuns s.log d.prog.length
+    let runs := (countRuns s.log d.prog.length).filter fun x => !d.froms.contains x.1
     let verdict := match firstUnjust s.log with
       | some _ => "fail unjustified-run"
       | none => "ok"
@@ -445,7 +449,7 @@ def doSet (m : Mode) (d : DState) (id : Nat) (v : Int) : DState × String :=
 def scopeGuard (d : DState) (ws : List String) : List String :=
   match ws with
   | kw :: _ =>
-    if d.inScope && (kw == "ssig" || kw == "slice" || kw == "sel" || kw == "eff" || kw == "reff" || kw == "imeff")
+    if d.inScope && (kw == "memof" || kw == "ssig" || kw == "slice" || kw == "sel" || kw == "eff" || kw == "reff" || kw == "imeff")
     then ["bad-op"] else ws
   | [] => ws
 
@@ -485,6 +489,16 @@ def stepLine (m : Mode) (d : DState) (line : String) : DState × String :=
         let d := clearLog { d with leaves := d.leaves ++ [id], dropped := d.dropped ++ [id] }
         (d, afterOp m d none)
       else (d, "bad-op")
+    | none => (d, "bad-op")
+  | ["memof", sg] =>
+    match sg.toNat? with
+    | some sg =>
+      match (if d.keys.contains sg || d.fields.contains sg then none else d.prog[sg]?) with
+      | some (.sig _) =>
+        let d := { d with froms := d.froms ++ [d.prog.length] }
+        let d := addNode d (.memo (.rd true sg))
+        (d, if m == .c02 then "ok ready=" ++ showIds (ready d.s) else "ok")
+      | _ => (d, "bad-op")
     | none => (d, "bad-op")
   | ["onclr", sg] =>
     match sg.toNat? with
